@@ -16,6 +16,7 @@ def families(tier):
     for w in g.WIDTHS:
         F.append(('E1', w))
         F.append(('T', w))
+        F.append(('N', w))
     if tier == 'quick':
         F.append(('E2q', 8))
         F.append(('E2q', 32))
@@ -32,6 +33,8 @@ def enum_family(name, w, seed):
         return iter(g.E1(w, 'full', (r.getrandbits(w), r.getrandbits(w)) if w > 1 else ()))
     if name == 'T':
         return g.targeted(w)
+    if name == 'N':
+        return g.near_equal(w)
     if name == 'E2q':
         return g.E2(w, 'min', 'red', pairs='small')
     if name == 'E2':
